@@ -9,6 +9,8 @@
 //! c41_typed also has the op  sz ty=<type> seq=<n> cap=<n> tl=<TLV value lengths>  (size classes around the
 //! 16-bit messageLength limit: 65 5xx, 65 534 / 65 536 / 65 538, 70 000 .. 200 000 octets): serialise either
 //! fails or parses back equal.
+//! and the ops  hd maj= min= sdo= dom= seq= li=  /  hn min=  (header fields at their boundaries through the public
+//! constructors PtpVersion::new, SdoId::try_from, Header::new: constructor accepts => serialise -> parse is equal).
 //! Both feed the op   de fill=<byte> cap=<n> pkt=<hex>
 //! = `Message::deserialize(pkt)`, dump of the parsed message, and its re-serialisation into a `cap`-byte
 //! buffer pre-filled with `fill`.  Observation: `err:<Kind>` | `ok h=.. b=.. s=<suffix> re=<bytes|err:Kind>`.
@@ -463,6 +465,88 @@ fn gen_sz(rng: &mut Rng, k: u64) -> String {
     format!("sz ty={} seq={} cap={} tl={}", ty, rng.below(65536), cap, tl)
 }
 
+// ---------------------------------------------------------------------------------------------
+// constructor-validated header fields (ops `hd`, `hn`): boundary values through the PUBLIC constructors
+// `PtpVersion::new`, `SdoId::try_from`, `Header::new`; "constructor accepts => serialise -> parse gives an equal message".
+
+fn hdr_round_trip(run: &mut Run, header: Header, attrs: &str, how: &str) -> String {
+    let msg = Message { header, body: MessageBody::Sync(SyncMessage { origin_timestamp: Timestamp::new(1, 2).unwrap() }), suffix: TlvSet::default() };
+    let mut buf = vec![0u8; 64];
+    match msg.serialize(&mut buf) {
+        Err(e) => err_str(&e).to_string(),
+        Ok(n) => {
+            let out = &buf[..n];
+            let back = match Message::deserialize(out) {
+                Ok(m2) if m2 == msg => "eq".to_string(),
+                Ok(_) => "neq".to_string(),
+                Err(e) => err_str(&e).to_string(),
+            };
+            if back != "eq" {
+                run.oracle_fail(
+                    "ser_then_parse",
+                    attrs,
+                    &format!("a header built by {} (the constructor accepted) serialises to {} and parses back: {} ({:?})", how, hex(out), back, Message::deserialize(out).map(|m| m.header.version)),
+                );
+            }
+            format!("ser={} back={}", hex(out), back)
+        }
+    }
+}
+
+fn exec_hd(run: &mut Run, rest: &[&str]) -> String {
+    let g = |k: &str| -> u64 { kv(rest, k).unwrap().parse().unwrap() };
+    let (maj, min, sdo, dom, seq, li) = (g("maj") as u8, g("min") as u8, g("sdo") as u16, g("dom") as u8, g("seq") as u16, g("li") as u8);
+    let ver = PtpVersion::new(maj, min);
+    let sd = SdoId::try_from(sdo);
+    let head = format!("ver={} sdo={}", if ver.is_ok() { "ok" } else { "err" }, if sd.is_ok() { "ok" } else { "err" });
+    run.hit(&format!("hd-{}", head.replace(' ', "-")));
+    let (Ok(version), Ok(sdo_id)) = (ver, sd) else { return head };
+    let mut header = Header::new(0);
+    header.version = version;
+    header.sdo_id = sdo_id;
+    header.domain_number = dom;
+    header.sequence_id = seq;
+    header.log_message_interval = li as i8;
+    run.nontrivial(&format!("hd {} {} {}", maj, min, sdo));
+    let how = format!("PtpVersion::new({}, {}), SdoId::try_from({:#x}), domain {}, sequence id {}, log interval {}", maj, min, sdo, dom, seq, li as i8);
+    format!("{} {}", head, hdr_round_trip(run, header, "enum_payload_out_of_domain=0 ctor=validated", &how))
+}
+
+fn exec_hn(run: &mut Run, rest: &[&str]) -> String {
+    let min: u8 = kv(rest, "min").unwrap().parse().unwrap();
+    run.hit(if min < 16 { "hn-in-range" } else { "hn-out-of-range" });
+    let attrs = format!("enum_payload_out_of_domain=0 ctor=header_new minor_out_of_range={}", (min >= 16) as u8);
+    hdr_round_trip(run, Header::new(min), &attrs, &format!("Header::new({})", min))
+}
+
+fn gen_hd(rng: &mut Rng, k: u64) -> String {
+    const V: [u8; 9] = [0, 1, 2, 14, 15, 16, 17, 255, 2];
+    // first a sweep that puts every boundary value in each position with the other fields valid, then mixes
+    let (maj, min, sdo) = if k < 9 {
+        (2, V[k as usize], 0)
+    } else if k < 18 {
+        (V[(k - 9) as usize], 1, 0)
+    } else if k < 24 {
+        (2, 1, [0u16, 0xfff, 0x1000, 0x1001, 0xffff, 0x0f00][(k - 18) as usize])
+    } else {
+        (*rng.pick(&V), *rng.pick(&V), *rng.pick(&[0u16, 0, 0xfff, 0x1000, 0x100, 0xffff, 0x0fff, 0x8000]))
+    };
+    format!(
+        "hd maj={} min={} sdo={} dom={} seq={} li={}",
+        maj,
+        min,
+        sdo,
+        *rng.pick(&[0u8, 255, 1, 127, 128]),
+        *rng.pick(&[0u16, 65535, 1, 0x8000, 0x7fff]),
+        *rng.pick(&[0u8, 127, 128, 255, 1])
+    )
+}
+
+fn gen_hn(rng: &mut Rng, k: u64) -> String {
+    const V: [u8; 8] = [0, 1, 14, 15, 16, 17, 255, 2];
+    format!("hn min={}", if k < 8 { V[k as usize] } else { *rng.pick(&V) })
+}
+
 fn exec_case(ops: &[String], run: &mut Run) {
     for op in ops {
         run.begin_op(op);
@@ -511,6 +595,14 @@ fn exec_case(ops: &[String], run: &mut Run) {
                     }
                 }
             }
+            ["hd", rest @ ..] => {
+                let obs = exec_hd(run, rest);
+                run.end_op(&obs);
+            }
+            ["hn", rest @ ..] => {
+                let obs = exec_hn(run, rest);
+                run.end_op(&obs);
+            }
             ["sz", rest @ ..] => {
                 let obs = exec_sz(run, rest);
                 run.end_op(&obs);
@@ -554,6 +646,15 @@ fn entry() {
                         // size classes around the 16-bit messageLength limit: cases 0..11, then every 250th
                         if idx < 12 || idx % 250 == 0 {
                             ops.push(gen_sz(&mut rng, if idx < 12 { idx } else { idx / 250 }));
+                        }
+                        // constructor-validated header fields at their boundaries: cases 12..=43, then every 20th
+                        if (12..44).contains(&idx) || idx % 20 == 7 {
+                            let sweep = (12..44).contains(&idx);
+                            let k = if sweep { idx - 12 } else { 100 + idx };
+                            ops.push(gen_hd(&mut rng, k));
+                            if idx % 3 == 0 || idx % 20 == 7 {
+                                ops.push(gen_hn(&mut rng, if sweep { (idx - 12) / 3 } else { 100 }));
+                            }
                         }
                         for _ in 0..n {
                             let big = rng.chance(1, 50);
